@@ -5,7 +5,7 @@
    variant of it.  Statements only; proofs are in Proofs/GreedyP.v. *)
 From Coq Require Import List Arith ZArith Bool Permutation.
 Import ListNotations.
-From KV Require Import Model.Greedy Proofs.GreedyP Proofs.GreedyFunP.
+From KV Require Import Model.Greedy Proofs.GreedyP Proofs.GreedyFunP Proofs.GreedyScaleP.
 Local Open Scope Z_scope.
 
 (* the checker is sound for the rule: layers in non-increasing total cost,
@@ -73,6 +73,12 @@ Theorem greedy_in_relation : forall work groups colocate,
   greedy_ok_b work groups colocate (greedy work groups colocate) = true.
 Proof. exact greedy_accepts_l. Qed.
 
+(* the rule only compares sums: multiplying every cost by one positive constant (e.g. costs measured in
+   other units; the correspondence uses exact powers of two) leaves the assignment unchanged *)
+Theorem greedy_scale_invariant : forall k work groups colocate, 0 < k ->
+  greedy (scale_work k work) groups colocate = greedy work groups colocate.
+Proof. intros k work groups colocate Hk. exact (greedy_scale_invariant_l k Hk work groups colocate). Qed.
+
 Example other_tiebreak_accepted :
   greedy_ok_b [[(0%nat, 1)]; [(0%nat, 1)]] [[0;1]%nat; [2;3]%nat] true
               [(0, [(0, 3)]); (1, [(0, 1)])]%nat = true /\
@@ -86,3 +92,4 @@ Print Assumptions greedy_colocated.
 Print Assumptions balance_workers.
 Print Assumptions balance_groups.
 Print Assumptions greedy_in_relation.
+Print Assumptions greedy_scale_invariant.
